@@ -4,7 +4,7 @@ import z3
 from vt.e1.values import (SIndexSet, SArr, SList, STT, SNum, SMaxRank, SInf, INF, SNone, NONE, SOpt, SFunc, SModule, SExc, Unsupported,
                           fresh, zi, zb, as_conc, is_conc_int, val_ite)
 from vt.e1 import npmodel
-from vt.e1.values import is_tag, dtype_cplx, SDType
+from vt.e1.values import is_tag, dtype_cplx, SDType, SArrN
 
 
 def kwargs_of(ex, node, state):
@@ -96,6 +96,11 @@ def call(ex, node, state):
     raise Unsupported('call of %s at line %d' % (ast.unparse(f), line))
 
 
+def lst_get_(l, j):
+    from vt.e1.contract import lst_get
+    return lst_get(l, j)
+
+
 def isinstance_(ex, v, t, line):
     ts = t if (isinstance(t, tuple) and t and not isinstance(t[0], str)) else (t,)
     names = set()
@@ -111,7 +116,7 @@ def isinstance_(ex, v, t, line):
     intlike = names & {'int', 'np.int32', 'np.int64'}
     if isinstance(v, SList):
         return 'list' in names
-    if isinstance(v, SArr):
+    if isinstance(v, (SArr, SArrN)):
         return 'ndarray' in names
     if isinstance(v, STT):
         return 'TT' in names
@@ -338,6 +343,23 @@ def modfunc(ex, state, mod, name, args, kw, line):
         return npmodel.new_arr(state, [a.shape[0] * b.shape[0], a.shape[1] * b.shape[1]], z3.simplify(z3.Or(a.cplx, b.cplx)))
     if name == 'tensordot':
         return npmodel.tensordot(ex, state, args[0], args[1], kw.get('axes', args[2] if len(args) > 2 else 2), line)
+    if name == 'transpose' and isinstance(args[0], SArrN):
+        # axes of symbolic number: only length and range of the axes list are checked (that it is a permutation is assumed)
+        a0, axes = args[0], args[1] if len(args) > 1 else kw.get('axes')
+        if isinstance(axes, SList):
+            from vt.e1.symexec import FA
+            ctx.oblige(state, 'transpose-axes', line, z3.And(axes.len_term() == a0.ndim, FA(0, axes.len_term(), lambda j: z3.And(zi(lst_get_(axes, j)) >= 0, zi(lst_get_(axes, j)) < a0.ndim))),
+                       "axes don't match array")
+        return SArrN(a0.size, a0.ndim, a0.cplx, a0.buf, None)
+    if name == 'reshape' and isinstance(args[0], SArrN):
+        a0 = args[0]
+        shp = shape_arg(args[1:2])
+        for x in shp:
+            ctx.oblige(state, 'reshape-nonneg', line, zi(x) >= 0)
+        for ax in getattr(a0, 'facts', lambda: [])():
+            state.assume(ax, model=True)
+        ctx.oblige(state, 'reshape-size', line, npmodel.prod(shp) == a0.size, 'cannot reshape array into the requested shape')
+        return SArr(shp, a0.cplx, a0.buf, True, own=False)
     if name == 'transpose':
         return npmodel.transpose(ex, state, args[0], args[1] if len(args) > 1 else kw.get('axes'), line)
     if name in ('conj', 'conjugate', 'real', 'abs', 'reciprocal', 'sqrt', 'exp'):
@@ -495,6 +517,9 @@ def prod_range(ex, state, lst, a, b, line):
     f = lst.fn
     state.assume(P(a, a) == 1)
     state.assume(z3.Implies(b > a, P(a, b) == P(a, b - 1) * zi(f(b - 1))))
+    # lemma L-prod-front (same product, first factor split off; needs induction, assumed): used by code that peels modes from the front
+    state.assume(z3.Implies(b > a, P(a, b) == zi(f(a)) * P(a + 1, b)))
+    state.assume(z3.Implies(z3.And(a >= 1, b >= a), P(a - 1, b) == zi(f(a - 1)) * P(a, b)))
     state.assume(z3.Implies(b <= a, P(a, b) == 1))
     state.assume(P(a, b) >= 0)
     from vt.e1.symexec import FA
@@ -587,6 +612,10 @@ def method(ex, state, obj, name, args, kw, line, node):
         if name == 'astype':
             return npmodel.new_arr(state, obj.shape, z3.BoolVal(args[0] == 'complex') if isinstance(args[0], str) else obj.cplx)
         raise Unsupported('ndarray.%s at line %d' % (name, line))
+    if isinstance(obj, SArrN):
+        if name == 'copy':
+            return SArrN(obj.size, obj.ndim, obj.cplx, state.alloc(), obj.shape)
+        raise Unsupported('method %s of an array of symbolic rank at line %d' % (name, line))
     if is_tag(obj, 'squeezed'):
         if name == 'reshape':
             return npmodel.reshape(ex, state, obj[1], shape_arg(args), line)
